@@ -61,6 +61,8 @@ def transformations(tier: str):
         ("optimize_ir(iter=1,noshape,noinline)", opt_ir(num_iterations=1, onnx_shape_inference=False, inline=False)),
         ("fold_constants(proto)", fold),
         ("rewrite(default,proto)", rw),
+        # non-default size limits: which constant nodes are folded depends on them (4 elements: most hosts have operands on both sides)
+        ("optimize(proto,input_size_limit=4,output_size_limit=4)", opt_proto(input_size_limit=4, output_size_limit=4)),
     ]
     if tier == "thorough":
         ts += [
@@ -82,8 +84,41 @@ def signature(mp: onnx.ModelProto):
     return ins, outs, sorted(n for n in init if n in {i.name for i in mp.graph.input})
 
 
+def override_candidates(mp: onnx.ModelProto, limit: int = 6):
+    """Concrete override values for the small integer / bool / scalar initializer-inputs of a model (shape-like operands,
+    conditions, ratios): the symbolic semantics cannot follow a data-dependent reshape target or axes, so those overridable
+    defaults are instantiated by a few concrete alternatives instead (enumerated; the other inputs stay symbolic)."""
+    from onnx import numpy_helper as nh_
+    inputs = {i.name for i in mp.graph.input}
+    out = []
+    for t in mp.graph.initializer:
+        if t.name not in inputs:
+            continue
+        a = nh_.to_array(t)
+        alts = []
+        if a.dtype == np.bool_ and a.size == 1:
+            alts = [np.logical_not(a)]
+        elif a.dtype.kind == "i" and a.ndim == 1 and 1 <= a.size <= 3:
+            p = int(np.prod(a)) if a.size and np.all(a > 0) else None
+            alts.append(a[::-1].copy())
+            if p is not None and a.size == 2:
+                alts += [np.array([p, 1], dtype=a.dtype), np.array([1, p], dtype=a.dtype), np.array([-1, 1], dtype=a.dtype)]
+            if a.size == 1:
+                alts += [a + 1, np.array([1], dtype=a.dtype), np.array([-1], dtype=a.dtype)]
+            if a.size == 3:
+                alts += [np.roll(a, 1)]
+        elif a.dtype.kind == "i" and a.ndim == 0:
+            alts = [a + 1, np.array(0, dtype=a.dtype)]
+        elif a.dtype.kind == "f" and a.ndim == 0:
+            alts = [np.array(0.5, dtype=a.dtype)]
+        for alt in alts:
+            if alt.shape == a.shape and not np.array_equal(alt, a):
+                out.append({t.name: alt})
+    return out[:limit]
+
+
 def check_model_pair(mp: onnx.ModelProto, spec, tname, tf, stats, loop_bound=3, want_sides=True, new=None,
-                     skip_if_first_fails=True):
+                     skip_if_first_fails=True, fixed_inputs=None):
     """-> record dict: verdict in {equiv, equiv_tol, cex, unknown, not_encoded, exception, unchanged}, side verdicts"""
     from vp.symonnx import equiv as Q
     from vp.symonnx import interp as I
@@ -138,6 +173,11 @@ def check_model_pair(mp: onnx.ModelProto, spec, tname, tf, stats, loop_bound=3, 
         rec["side"]["unused_initializer_input_defaults_dropped"] = [n for n in lost if n not in used_new]
     try:
         inputs = {n: fresh(n, sh, DT(dt)) for n, dt, sh in spec}
+        if fixed_inputs:
+            from vp.symonnx.values import const as _const_sv
+            for fn_, fv_ in fixed_inputs.items():
+                inputs[fn_] = _const_sv(fv_)
+            rec["fixed_inputs"] = {k: np.asarray(v).tolist() for k, v in fixed_inputs.items()}
         m1, m2 = ir.from_proto(mp), ir.from_proto(new)
         r1 = I.interpret(m1, inputs, loop_bound=loop_bound)
         r2 = I.interpret(m2, inputs, loop_bound=loop_bound)
@@ -191,8 +231,20 @@ def model_worker(payload):
     out = {"model": name, "features": features, "ops": sorted({n.op_type for n in mp.graph.node}), "records": [], "error": None}
     t0 = time.time()
     try:
+        overrides = override_candidates(mp) if "overridable_defaults" in (features or []) or "initializer_input" in (features or []) else []
         for tname, tf in transformations(tier):
-            out["records"].append(check_model_pair(mp, spec, tname, tf, stats, loop_bound))
+            rec0 = check_model_pair(mp, spec, tname, tf, stats, loop_bound)
+            out["records"].append(rec0)
+            if overrides and rec0.get("verdict") == "not_encoded":
+                # the transformed model is the same whatever the caller feeds: transform once, compare under each concrete override
+                try:
+                    new_ = tf(copy.deepcopy(mp))
+                except Exception:  # noqa: BLE001 - already recorded by rec0
+                    continue
+                for ov in overrides:
+                    rec_ = check_model_pair(mp, spec, tname, None, stats, loop_bound, want_sides=False, new=new_, fixed_inputs=ov)
+                    rec_["transformation"] = f"{tname} @ override {dict((k, np.asarray(v).tolist()) for k, v in ov.items())}"
+                    out["records"].append(rec_)
     except Exception as e:  # noqa: BLE001
         out["error"] = f"{type(e).__name__}: {e} {traceback.format_exc()[-1500:]}"
     out["solver"] = stats.as_dict()
